@@ -1364,6 +1364,9 @@ IxOK(pre, e, post) ==
   /\ Chk("C12", "entrypoint_routing", e.routing \in {"none", "same"})
   /\ Chk("C13", "tick_array_encoding", C13State(post))
   /\ IF e.name \in {"initialize_tick_array", "initialize_dynamic_tick_array"} THEN Chk("C13", "array_created_empty", InitTickArrayEffect(pre, e, post)) ELSE TRUE
+  \* (an array off the grid of start indexes is never looked at by a swap: the ticks it holds would be skipped)
+  /\ IF e.name \in {"initialize_tick_array", "initialize_dynamic_tick_array"} THEN Chk("C10", "array_on_the_grid", InitTickArrayEffect(pre, e, post)) ELSE TRUE
+  /\ IF e.name \in {"initialize_tick_array", "initialize_dynamic_tick_array"} THEN Chk("C05", "array_on_the_grid", InitTickArrayEffect(pre, e, post)) ELSE TRUE
   /\ IF e.name \in {"initialize_reward", "initialize_reward_v2"} THEN Chk("C11", "reward_initialised", InitRewardEffect(pre, e, post)) ELSE TRUE
   /\ IF e.name \in {"initialize_fee_tier", "initialize_adaptive_fee_tier"} THEN Chk("C19", "tier_created", InitTierEffect(pre, e, post)) ELSE TRUE
   /\ IF e.name \in {"initialize_token_badge", "delete_token_badge"} THEN Chk("C19", "badge_effect", BadgeEffect(pre, e, post)) ELSE TRUE
